@@ -157,6 +157,18 @@ def _get_http_headers(req_env):
     return retval
 
 
+def _set_content_length(headers, length):
+    """Header names are case-insensitive: whatever spelling user code chose for
+    a length of its own, one Content-Length (or none, for ``None``) remains."""
+
+    for k in [k for k in headers if hasattr(k, 'lower')
+                                        and k.lower() == 'content-length']:
+        del headers[k]
+
+    if length is not None:
+        headers['Content-Length'] = str(length)
+
+
 def _gen_http_headers(headers):
     retval = []
 
@@ -422,8 +434,8 @@ class WsgiApplication(HttpBase):
         # consume the generator to get the length
         p_ctx.out_string = list(p_ctx.out_string)
 
-        p_ctx.transport.resp_headers['Content-Length'] = \
-                                    str(sum((len(s) for s in p_ctx.out_string)))
+        _set_content_length(p_ctx.transport.resp_headers,
+                                         sum((len(s) for s in p_ctx.out_string)))
         self.event_manager.fire_event('wsgi_exception', p_ctx)
 
         start_response(p_ctx.transport.resp_code,
@@ -540,8 +552,7 @@ class WsgiApplication(HttpBase):
         if self.chunked:
             # the user has not set a content-length, so we delete it as the
             # input is just an iterable.
-            if 'Content-Length' in p_ctx.transport.resp_headers:
-                del p_ctx.transport.resp_headers['Content-Length']
+            _set_content_length(p_ctx.transport.resp_headers, None)
         else:
             try:
                 p_ctx.out_string = [b''.join(p_ctx.out_string)]
@@ -561,8 +572,8 @@ class WsgiApplication(HttpBase):
         try:
             len(p_ctx.out_string)
 
-            p_ctx.transport.resp_headers['Content-Length'] = \
-                                    str(sum([len(a) for a in p_ctx.out_string]))
+            _set_content_length(p_ctx.transport.resp_headers,
+                                        sum([len(a) for a in p_ctx.out_string]))
         except TypeError:
             pass
 
